@@ -147,9 +147,9 @@ Definition ex_su : expr :=
              ESpread (EArray [ECall (EId 1000 false false) [] 0 false])])
     (EIf (ECall (EId 1000 false false) [] 0 false) (ENum (Fin false 1 0)) (ECall (EId 1000 false false) [] 0 false)).
 Example simplify_unused_ex :
-  simplify_unused (w_unbound Wgood) true ex_su <> UFuel /\ no_bad Wgood ex_su /\ flags_ok Wgood ex_su /\
+  simplify_unused (w_unbound Wgood) false ex_su <> UFuel /\ no_bad Wgood ex_su /\ flags_ok Wgood ex_su /\
   eval Wgood [] ex_su = Some ([99; 7; 99; 99], Throw (VStr [101])) /\
-  eval_unused Wgood [] (simplify_unused (w_unbound Wgood) true ex_su) = Some ([99; 7; 99; 99], Throw (VStr [101])).
+  eval_unused Wgood [] (simplify_unused (w_unbound Wgood) false ex_su) = Some ([99; 7; 99; 99], Throw (VStr [101])).
 Proof.
   split; [vm_compute; discriminate|]. split; [cbn; tauto|]. split; [cbn; repeat split; intros; try discriminate; exact I|].
   split; vm_compute; reflexivity.
@@ -182,7 +182,6 @@ Example mangle_if_equiv_ex :
   mangle_if (w_unbound Wgood) false true ex_mi_t ex_mi_y ex_mi_n = Some ex_mi_r /\
   (flags_ok Wgood ex_mi_t /\ flags_ok Wgood ex_mi_y /\ flags_ok Wgood ex_mi_n) /\
   (vls_ok ex_mi_t /\ vls_ok ex_mi_y /\ vls_ok ex_mi_n) /\ (no_hole_args ex_mi_y /\ no_hole_args ex_mi_n) /\
-  (spine_ok ex_mi_y /\ spine_ok ex_mi_n) /\
   eval Wgood [] (EIf ex_mi_t ex_mi_y ex_mi_n) = Some ([99; 7; 99], Val VUndef) /\
   eval Wgood [] ex_mi_r = Some ([99; 7; 99], Val VUndef) /\
   mangle_if (w_unbound Wgood) false true (EBin BLooseNe (EId 1 false false) ENull) (EId 1 false false) ex_mi_g
@@ -192,7 +191,6 @@ Proof.
   split; [cbn; repeat split; intros; try discriminate; exact I|].
   split; [cbn; unfold two52, two53; repeat split; try (right; lia); exact I|].
   split; [cbn; repeat split; try discriminate; exact I|].
-  split; [cbn; repeat split; auto|].
   repeat split; vm_compute; reflexivity.
 Qed.
 
